@@ -157,6 +157,22 @@ func c07CheckMul(c c07MulCase) h.Result {
 	if !bytes.Equal(al[:], want) {
 		r.Fail("x25519.ScalarMult(dst-is-the-point):wrong-output", "k=%x u=%x got=%x want=%x", k, u, al[:], want)
 	}
+	// scalar and point are one object: X25519(k, k); and all three are
+	al = ka
+	wantKK := ref.X25519(k, k)
+	var d2 [32]byte
+	x25519.ScalarMult(&d2, &al, &al)
+	if !bytes.Equal(d2[:], wantKK) || !bytes.Equal(al[:], k) {
+		r.Fail("x25519.ScalarMult(scalar-is-the-point):wrong-output", "k=u=%x got=%x want=%x", k, d2[:], wantKK)
+	}
+	x25519.ScalarMult(&al, &al, &al)
+	if !bytes.Equal(al[:], wantKK) {
+		r.Fail("x25519.ScalarMult(all-three-one-object):wrong-output", "k=u=%x got=%x want=%x", k, al[:], wantKK)
+	}
+	kk := append([]byte(nil), k...)
+	if o2, err := x25519.X25519(kk, kk); (err != nil) != bytes.Equal(wantKK, make([]byte, 32)) || (err == nil && !bytes.Equal(o2, wantKK)) || !bytes.Equal(kk, k) {
+		r.Fail("x25519.X25519(scalar-is-the-point):wrong-output", "k=u=%x got=%x err=%v want=%x", k, o2, err, wantKK)
+	}
 
 	// checked entry point: error exactly when the result is all zero
 	r.Eval(1)
